@@ -220,8 +220,9 @@ impl ThreeFold {
 
     pub fn add(&mut self, board: Board) -> bool {
         let count = self.boards.entry(board).or_insert(0);
-        *count += 1;
-        *count == 3
+        let first_time_at_three = *count == 2;
+        *count = count.saturating_add(1);
+        first_time_at_three
     }
 
     pub fn get(&self, board: &Board) -> u8 {
@@ -246,7 +247,7 @@ impl<'a> BoardList<'a> {
             prev: PrevBoard::Prev(self),
             board,
             three_fold: self.three_fold,
-            count: self.count(board) + 1,
+            count: self.count(board).saturating_add(1),
         }
     }
 
